@@ -162,6 +162,7 @@ def run(P, R, tier):
     leaf_level(P, R, meth['intersects'], trav, dims, kind='intersects')
     leaf_level(P, R, meth['covers_overlaps'], trav, dims, kind='covers_overlaps')
     builder(P, R, HR)
+    parent_union(P, R, HR.members['_build_hilbert_rtree'][1])
     tree_arith(P, R, HR, NR, meth)
     for m in (meth['intersects'], meth['covers_overlaps']):
         cursor_discipline(P, R, m)
@@ -398,6 +399,104 @@ def builder(P, R, HR):
                               for x in walk_own(f.node))
     R.check(okp, 'C03.g', f, ret[-1] if ret else None, 'stored rows = input rows permuted by the stored keys; pages are cut from the permuted rows',
             'stored rows and stored keys are not the same permutation of the input (rows would be attributed to the wrong keys)')
+
+
+def parent_union(P, R, f):
+    """E-NAN/E-ORD evaluation of the bottom-up union: parent = union of its valid children; NaN marks 'no box'."""
+    inner = None
+    for w in [s for s in walk_own(f.node) if isinstance(s, ast.While)]:
+        for s in w.body:
+            if isinstance(s, ast.For) and isinstance(s.target, ast.Name) and any('_left_child' in norm(x) for x in s.body):
+                inner = s
+    if inner is None:
+        R.abstain('C03.d', f, None, 'bottom-up union loop not in the recognised form')
+        return
+    tree_name = None
+    for x in ast.walk(inner):
+        if isinstance(x, ast.Assign) and isinstance(x.targets[0], ast.Subscript) and isinstance(x.targets[0].value, ast.Name):
+            tree_name = x.targets[0].value.id
+    # the "no box" marker: initial fill of the tree array must be NaN because validity is tested with isnan
+    g, d = astq.unique_def(f, tree_name) if tree_name else (None, None)
+    init_txt = norm(d) if isinstance(d, ast.AST) else ''
+    uses_isnan = 'isnan' in norm(inner)
+    ok_init = ('np.full(' in init_txt and 'nan' in init_txt) or not uses_isnan
+    R.check(ok_init, 'C03.c', f, d if isinstance(d, ast.AST) else None, 'unused tree nodes are initialised with the NaN "no box" marker that the union tests for',
+            f'the tree array is initialised by `{init_txt}` but invalid nodes are recognised by isnan: unused leaves count as real boxes and stretch the parents and total_bounds')
+    var = inner.target.id
+    cases1 = []
+    for o in ordeval.orderings(4):
+        if o[0] <= o[1] and o[2] <= o[3]:
+            cases1.append(o)
+    bad = []
+    total = 0
+    for n in (1, 2):
+        combos = list(itertools.product(cases1, repeat=n))
+        if n == 2:
+            combos = combos[::7]
+        for combo in combos:
+            for lnan, rnan in ((False, False), (True, False), (False, True), (True, True)):
+                total += 1
+                L = Row([Sym(None if lnan else c[0], f'L.lb{k}', k) for k, c in enumerate(combo)] + [Sym(None if lnan else c[1], f'L.ub{k}', k) for k, c in enumerate(combo)])
+                Rr = Row([Sym(None if rnan else c[2], f'R.lb{k}', k) for k, c in enumerate(combo)] + [Sym(None if rnan else c[3], f'R.ub{k}', k) for k, c in enumerate(combo)])
+                result = {}
+
+                def subscript(I, e, base, L=L, Rr=Rr):
+                    if isinstance(e.value, ast.Name) and e.value.id == tree_name and isinstance(e.slice, ast.Tuple):
+                        idx = I.expr(e.slice.elts[0])
+                        return {1: L, 2: Rr}.get(idx, OPQ)
+                    return None
+
+                def store(I, t, base, v, result=result):
+                    if isinstance(t.value, ast.Name) and t.value.id == tree_name:
+                        result['row'] = v
+
+                def call(I, e):
+                    fn = norm(e.func)
+                    if fn in ('_left_child', '_right_child', '_parent'):
+                        gfn = P.func(MOD, fn)
+                        sub = ordeval.Interp({gfn.params[0]: I.expr(e.args[0])}, {})
+                        try:
+                            sub.block(gfn.body)
+                        except ordeval.Ctl as c:
+                            return c.val
+                        return OPQ
+                    return None
+                env = {var: 0, 'n': n, tree_name: OPQ}
+                try:
+                    I, ctl = ordeval.run_fragment(inner.body, env, {'subscript': subscript, 'store': store, 'call': call})
+                except ordeval.AxisMismatch as e:
+                    R.bad('C03.d', f, e.node, f'the union combines different dimensions: {e.a.name} with {e.b.name}')
+                    return
+                except ordeval.NotComparisonOnly as e:
+                    R.abstain('C03.d', f, inner, f'bottom-up union is not comparison/min/max-only: {e}')
+                    return
+                row = result.get('row')
+                vals = row.vals if isinstance(row, Row) else row
+                if vals is OPQ or (vals is not None and not isinstance(vals, list)):
+                    R.abstain('C03.d', f, inner, 'the row stored for the parent could not be evaluated')
+                    return
+                if lnan and rnan:
+                    ok = row is None or all(isinstance(v, Sym) and v.nan for v in vals)
+                    want = 'no box (NaN)'
+                elif lnan or rnan:
+                    src = Rr if lnan else L
+                    ok = vals is not None and len(vals) == 2 * n and all(v is w for v, w in zip(vals, src.vals))
+                    want = 'the box of the only valid child (' + ('right' if lnan else 'left') + ')'
+                else:
+                    ok = vals is not None and len(vals) == 2 * n
+                    if ok:
+                        for k in range(n):
+                            ok = ok and isinstance(vals[k], Sym) and vals[k].rank == min(L.vals[k].rank, Rr.vals[k].rank)
+                            ok = ok and isinstance(vals[k + n], Sym) and vals[k + n].rank == max(L.vals[k + n].rank, Rr.vals[k + n].rank)
+                    want = '(min of lower bounds, max of upper bounds)'
+                if not ok:
+                    bad.append({'left': 'NaN' if lnan else [v.rank for v in L.vals], 'right': 'NaN' if rnan else [v.rank for v in Rr.vals],
+                                'parent': None if vals is None else [getattr(v, 'rank', v) if not getattr(v, 'nan', False) else 'nan' for v in vals], 'expected': want})
+    R.count('orderings', total)
+    R.exhaustive_sites['C03.d parent union (valid/NaN children), n in (1,2)'] = True
+    R.check(not bad, 'C03.d', f, inner, f'every parent box is the union of its valid children on all {total} evaluated cases (including NaN children)',
+            f'parent box is not the union of its valid children on {len(bad)} of {total} cases, e.g. {bad[:2]}: a subtree disappears from queries or total_bounds is wrong',
+            construct='bottom-up union of children', counterexamples=bad[:5])
 
 
 def tree_arith(P, R, HR, NR, meth):
